@@ -55,6 +55,8 @@ def to_lines(sim):
                 c = sim.callers[e[3]]
                 lines.append(spawn_line(sim, c))
                 tmap[c.tid] = nspawn
+                if c.kind == "seq" and c.opts.get("boom") is not None:
+                    lines.append("boom %d" % nspawn)
                 nspawn += 1
             elif what == "follow-start":
                 b, v, tw, dt, q = _cmd_fields(sim, sim.follow_cmd)
